@@ -41,11 +41,18 @@ type scenario struct {
 	PingPong  bool   // request/response conversation: each side sends its next chunk only after the other's previous chunk has arrived
 	Route     string // "" direct dial; "downstream": via a downstream proxy; "downstream-coalesced": its 200 shares a segment with the first target bytes
 	Pause     int    // seconds of (virtual) silence each side keeps before writing its last chunk; 0 = none
+	// AbortDuringDial: the client resets its connection ("abort": RST) or closes it ("close": FIN) while the proxy
+	// is still dialling the target; the 200 can then no longer be delivered. The target must still see
+	// end-of-stream promptly and both connections must be released.
+	AbortDuringDial string
 }
 
 func (s scenario) String() string {
 	if s.DialErr {
 		return "dial-error"
+	}
+	if s.AbortDuringDial != "" {
+		return fmt.Sprintf("client %ss while the proxy is dialling, route=%s", s.AbortDuringDial, s.Route)
 	}
 	return fmt.Sprintf("head=%d c=%v t=%v first=%s/%s short=%v pingpong=%v route=%s pause=%ds", s.Head, s.CChunks, s.TChunks, s.Initiator, s.Mode, s.ShortRead, s.PingPong, s.Route, s.Pause)
 }
@@ -90,6 +97,7 @@ func run(sc scenario) (body func(), check func(r *vrt.Result) []finding) {
 	var headWarning string
 	var headErr error
 	var proxyToTarget *simnet.Conn
+	var dialStarted, clientGone bool
 	type snap struct {
 		cGot, tGot         int
 		cEOF, tEOF         bool
@@ -184,10 +192,16 @@ func run(sc scenario) (body func(), check func(r *vrt.Result) []finding) {
 	body = func() {
 		w = pworld.NewWorld()
 		cs, ts, proxyToTarget = nil, nil, nil
+		dialStarted, clientGone = false, false
 		clientHead, headStatus, headWarning, headErr = "", 0, "", nil
 		w.Proxy.SetDial(func(network, addr string) (net.Conn, error) {
 			if sc.DialErr {
 				return nil, errors.New("simulated dial failure")
+			}
+			if sc.AbortDuringDial != "" {
+				dialStarted = true
+				vrt.Bump()
+				vrt.WaitUntil("client-gone", func() bool { return clientGone })
 			}
 			a, b := simnet.Pipe("proxy>target", "target")
 			a.ShortReads = sc.ShortRead
@@ -244,6 +258,19 @@ func run(sc scenario) (body func(), check func(r *vrt.Result) []finding) {
 			}
 			cl.C.Peer().ShortReads = sc.ShortRead
 			cs = &side{name: "client", conn: cl.C}
+			if sc.AbortDuringDial != "" {
+				cl.Send(connectHead)
+				vrt.WaitUntil("dial-started", func() bool { return dialStarted })
+				if sc.AbortDuringDial == "abort" {
+					cl.C.Abort()
+				} else {
+					cl.C.Close()
+				}
+				cs.readDone, cs.wrDone, cs.closed = true, true, true
+				clientGone = true
+				vrt.Bump()
+				return
+			}
 			rest := cpay
 			switch sc.Head {
 			case 0:
@@ -332,6 +359,31 @@ func run(sc scenario) (body func(), check func(r *vrt.Result) []finding) {
 			}
 			if !late.srvClosed && !prompt.srvClosed {
 				// connection may legitimately stay open for another request after a 502; the client closed it.
+			}
+			return out
+		}
+		if sc.AbortDuringDial != "" {
+			tag := "client_" + sc.AbortDuringDial + "_during_dial"
+			if sc.Route != "" {
+				tag += ":" + sc.Route
+			}
+			if ts == nil {
+				add("harness:no_dial:"+tag, "the proxy never dialled the target")
+				return out
+			}
+			if !prompt.tDone {
+				if late.tDone {
+					add("eof_late:target:"+tag, "the client was gone before the tunnel was up; the target observed end-of-stream only after the idle timeout")
+				} else {
+					add("eof_never:target:"+tag, "the client was gone before the tunnel was up; the target never observed end-of-stream")
+				}
+			}
+			if !prompt.srvClosed || !prompt.pcClose || !prompt.handlerDone {
+				if late.srvClosed && late.pcClose && late.handlerDone {
+					add("release_late:"+tag, "proxy released the connections only after the idle timeout (client side closed=%v, target side closed=%v, handler done=%v at quiescence)", prompt.srvClosed, prompt.pcClose, prompt.handlerDone)
+				} else {
+					add("release_never:"+tag, "proxy never released the connections (client side closed=%v, target side closed=%v, handler done=%v)", late.srvClosed, late.pcClose, late.handlerDone)
+				}
 			}
 			return out
 		}
@@ -523,6 +575,11 @@ func scenarios(tier string) []scenario {
 				}
 				out = append(out, scenario{Head: 0, CChunks: []int{1, 2}, TChunks: []int{3, 1}, Initiator: in, Mode: "half", Route: route, Pause: pause})
 			}
+		}
+	}
+	for _, how := range []string{"abort", "close"} {
+		for _, route := range []string{"", "downstream"} {
+			out = append(out, scenario{AbortDuringDial: how, Route: route, Initiator: "client", Mode: "full"})
 		}
 	}
 	out = append(out, scenario{DialErr: true}, scenario{DialErr: true, Route: "downstream"})
